@@ -9,6 +9,9 @@ mod serde;
 pub struct Uplink {
     pending: heapless::Vec<u8, FOPTS_MAX_LEN>,
     confirmed: bool,
+    /// Set once a command did not fit: later commands are dropped as well, so that
+    /// only trailing answers are ever missing
+    truncated: bool,
 }
 
 impl Uplink {
@@ -23,12 +26,15 @@ impl Uplink {
     }
     pub fn add_mac_command<M: SerializableMacCommand>(&mut self, cmd: M) {
         // Check that there's still enough room for MAC commands
-        if self.pending.len() + cmd.payload_len() < FOPTS_MAX_LEN {
+        if !self.truncated && self.pending.len() + cmd.payload_len() < FOPTS_MAX_LEN {
             let _ = self.pending.push(cmd.cid());
             self.pending.extend_from_slice(cmd.payload_bytes()).unwrap();
+        } else {
+            self.truncated = true;
         }
     }
     pub fn clear_mac_commands(&mut self, retain_acks: bool) {
+        self.truncated = false;
         // Certain commands have to be retained until their acknowledgment is confirmed
         if retain_acks {
             use UplinkMacCommand::*;
